@@ -57,12 +57,11 @@ func c11CreateVsKick() vs.Verdict {
 	vs.WaitIdle()
 	vs.Quiet(true)
 	alive := len(slices.Collect(s.Sessions()))
-	h.mu.Lock()
-	var ids []string
-	for id := range h.sessions {
-		ids = append(ids, id)
+	ids, privOK := privHandlerSessionIDs(h)
+	if !privOK {
+		// no private view of the handler's table: the probe below (is the issued id still honoured?) stands in
+		ids = make([]string, alive)
 	}
-	h.mu.Unlock()
 	sid := created.Header().Get("Mcp-Session-Id")
 	probe := 0
 	if sid != "" {
@@ -129,9 +128,10 @@ func c11PostVsTimeout() vs.Verdict {
 	vs.WaitIdle()
 	vs.Quiet(true)
 	alive := len(slices.Collect(s.Sessions()))
-	h.mu.Lock()
-	inTable := len(h.sessions)
-	h.mu.Unlock()
+	inTable := alive
+	if ids, ok := privHandlerSessionIDs(h); ok {
+		inTable = len(ids)
+	}
 	body := strings.TrimSpace(rec.Body.String())
 	if rec.Code == http.StatusOK && time.Since(t0) >= 2*timeout {
 		// quiescence was only reached after another full idle period: the session was served and
